@@ -113,6 +113,44 @@ fn max_reference_depth(src: &str, prog: &tx3_lang::ast::Program) -> usize {
     best
 }
 
+/// A policy whose constructor fields name a policy that cannot be followed: itself, or a policy whose own fields
+/// are names (a tx resolves the outer policy to a definition analysed while the inner one was still unanalysed).
+/// Decided on the source text of the policy definitions.
+fn policy_names_unresolved_policy(src: &str, prog: &tx3_lang::ast::Program) -> bool {
+    use std::collections::BTreeMap;
+    let mut text: BTreeMap<String, Option<String>> = BTreeMap::new();
+    for p in &prog.policies {
+        let body = match &p.value {
+            tx3_lang::ast::PolicyValue::Constructor(_) => {
+                let t = crate::grammar::strip_comments(src.get(p.span.start..p.span.end).unwrap_or(""));
+                Some(t.splitn(2, '{').nth(1).unwrap_or("").to_string())
+            }
+            tx3_lang::ast::PolicyValue::Assign(_) => None,
+        };
+        text.insert(p.name.value.clone(), body);
+    }
+    let mut declared: Vec<String> = prog.policies.iter().map(|p| p.name.value.clone()).collect();
+    declared.extend(prog.parties.iter().map(|p| p.name.value.clone()));
+    if let Some(env) = &prog.env {
+        declared.extend(env.fields.iter().map(|f| f.name.clone()));
+    }
+    let names_in = |body: &str| -> Vec<String> { crate::grammar::tokenize(body).into_iter().filter(|t| declared.contains(t)).collect() };
+    for (name, body) in &text {
+        let Some(body) = body else { continue };
+        for r in names_in(body) {
+            if r == *name {
+                return true;
+            }
+            if let Some(Some(inner)) = text.get(&r) {
+                if !names_in(inner).is_empty() {
+                    return true;
+                }
+            }
+        }
+    }
+    false
+}
+
 impl C13 {
     /// the implication itself on one source text
     fn judge(&self, ctx: &mut Ctx, src: &str, mutators: &[String], phase: &str, has_cycle: bool) {
@@ -163,6 +201,8 @@ impl C13 {
                     let long_chain = mutators.iter().any(|m| m == "local-chain->=9") || max_reference_depth(src, &prog) >= 9;
                     let sig = if cycle {
                         "lower-err:[reference-cycle]".to_string()
+                    } else if matches!(e, tx3_lang::lowering::Error::MissingAnalyzePhase(_)) && policy_names_unresolved_policy(src, &prog) {
+                        "lower-err:[policy-names-unresolved-policy]".to_string()
                     } else if long_chain && matches!(e, tx3_lang::lowering::Error::MissingAnalyzePhase(_)) {
                         "lower-err:[local-chain>=9]".to_string()
                     } else {
